@@ -120,16 +120,31 @@ func c18Storage(c *Check) {
 			msIdx := snapIndexSym(p, FieldOf(ms, snapF))
 			ok := f.ImpliesCmp(msIdx, "!=", constSym(0))
 			ge := false
+			var other *Sym
 			for _, a := range f.Atoms {
 				if a.K == ALe {
 					for k := range a.L.S {
 						if k == msIdx.Key() && a.L.T[k] == -1 {
 							ge = true
+							for k2, s2 := range a.L.S {
+								if k2 != k {
+									other = s2
+								}
+							}
 						}
 					}
 				}
 			}
-			c.Result(ok && ge, "C18.E", "ErrSnapOutOfDate boundary (ApplySnapshot)", fnName(aps), p.site(ret), "existing snapshot index != 0 && >= the new one", strings.Join(f.Describe(), "; "))
+			// exactly: the rejection is taken iff msIndex != 0 && msIndex >= snapIndex
+			exact, why := false, "the compared index is not the new snapshot's"
+			snapPrm := fi.Sym(aps.Params[1])
+			if other != nil && strings.Contains(other.Key(), snapPrm.Key()) && strings.HasSuffix(other.Key(), ".GetMetadata().GetIndex()") {
+				if pf, okP := fi.PathFormula(ret, -1); okP {
+					spec := bfAnd(bfCmp(msIdx, "!=", constSym(0)), bfCmp(msIdx, ">=", other))
+					exact, why = bfEquiv(pf, spec)
+				}
+			}
+			c.Result(ok && ge && exact, "C18.E", "ErrSnapOutOfDate boundary (ApplySnapshot)", fnName(aps), p.site(ret), "rejected exactly when the existing snapshot index != 0 && >= the new one (re-applying the same snapshot must not wipe the log)", strings.Join(f.Describe(), "; ")+" "+why)
 		}
 	}
 	// --- C18.V: view composition: unstable first, then storage
